@@ -27,6 +27,7 @@ LEVEL_TEXT = (
     "each history. A sample of constructions is cross-checked against a fresh interpreter process. Sampled histories."
     ' The empty library selection is part of the requests.'
 )
+LEVEL_TEXT += ' Added later: libraries keeping their commands in modules of various names (cmds, _cmds, _impl_v2, __main__, _).'
 LEVEL_NOTE = "Classes that claim a __module__ equal to or below a generated library are not generated (that is membership of the library by Python's own notion)."
 RULE = (
     "Cases: {libs: {package: [command names]}, steps: construct(libs...) | define(module, name) | import(lib)}. "
